@@ -17,4 +17,5 @@ Extraction "model_sparse.ml"
   q_csr_residual q_csr_mult_T
   q_csc_spmv q_csc_spmv_append q_csc_spmv_append_T q_csc_spmv_append_neg q_csc_spmv_append_neg_T
   q_csc_residual q_csc_mult_T
-  q_bcoo_expand q_bsr_to_csr.
+  q_bcoo_expand q_bsr_to_csr q_bcoo_transpose q_bsr_transpose q_bsc_transpose
+  q_bsr_remove_duplicates q_bsc_remove_duplicates q_bcoo_remove_duplicates.
